@@ -853,13 +853,13 @@ func (w *world) startFM(view *filtermaps.ChainView) {
 	w.fm = fm
 	w.indexKV.Hook = func(op *simdisk.KVOp) {
 		// Watch the persisted index range: the recorded finding "first-indexed-block-starts-
-		// in-unindexed-map" has a precise signature -- the first indexed block moves DOWN
-		// although no map was added at the tail (common.Range.SetAfterLast pulling first
-		// along). Only blocks marked here are excused by that known finding.
+		// in-unindexed-map" has a precise signature -- a range update that moves the first
+		// indexed block DOWN and leaves the block range EMPTY [b,b): that is what
+		// common.Range.SetAfterLast(b) does to a range whose first is above b. Only blocks
+		// marked here are excused by that known finding.
 		rs, ok, err := rawdb.ReadFilterMapsRange(w.indexKV.Mem())
 		w.mu.Lock()
-		if err == nil && ok && w.haveRange && rs.BlocksFirst < w.lastRange.BlocksFirst &&
-			rs.MapsFirst == w.lastRange.MapsFirst && rs.TailPartialEpoch == w.lastRange.TailPartialEpoch {
+		if err == nil && ok && w.haveRange && rs.BlocksFirst < w.lastRange.BlocksFirst && rs.BlocksFirst == rs.BlocksAfterLast {
 			w.pulledDown[rs.BlocksFirst] = true
 		}
 		w.lastRange, w.haveRange = rs, err == nil && ok
